@@ -49,4 +49,13 @@ static int h_split(char * s, char c, char ** out, int max) {
 	}
 	return n;
 }
+
+/* the token pool functions do not exist in -DDISABLE_OBJECT_POOL builds */
+#ifdef DISABLE_OBJECT_POOL
+#define H_POOL_INIT() ((void) 0)
+#define H_POOL_DRAIN() ((void) 0)
+#else
+#define H_POOL_INIT() token_pool_init()
+#define H_POOL_DRAIN() token_pool_drain()
+#endif
 #endif
